@@ -273,19 +273,18 @@ class Front:
         self.ntag = 0
         self.events = [{"act": "Init"}]
         self.dir = tempfile.mkdtemp(prefix="verif-c18-")
-        pw = os.path.join(self.dir, "pwfile")
-        with open(pw, "w") as f:
-            for name, (kind, secret) in ACCOUNTS.items():
-                if kind == "unknown":
-                    continue
-                md = os.path.join(self.dir, "mail-" + name)
-                os.makedirs(os.path.join(md, "inbox"))
-                with open(os.path.join(md, "inbox", "1"), "w") as g:
-                    g.write(f"From: x@example.com\nSubject: for {name}\n\nprivate {name}\n")
-                with open(os.path.join(md, "inbox", ".mh_sequences"), "w") as g:
-                    g.write("unseen: 1\n")
-                h = md5_hash(secret) if kind == "normal" else "!" + "x" * 40
-                f.write(f"{name}:{h}:{md}\n")
+        self.accounts = {k: list(v) for k, v in ACCOUNTS.items()}
+        self.old = {}
+        self.pwfile = pw = os.path.join(self.dir, "pwfile")
+        self.pw_mtime = 1_600_000_000
+        for name, (kind, secret) in ACCOUNTS.items():
+            md = os.path.join(self.dir, "mail-" + name)
+            os.makedirs(os.path.join(md, "inbox"))
+            with open(os.path.join(md, "inbox", "1"), "w") as g:
+                g.write(f"From: x@example.com\nSubject: for {name}\n\nprivate {name}\n")
+            with open(os.path.join(md, "inbox", ".mh_sequences"), "w") as g:
+                g.write("unseen: 1\n")
+        self.write_pwfile()
         self.m.auth.PW_FILE_LOCATION = pw
         self.m.auth.PW_FILE_LAST_TIMESTAMP = 0.0
         self.m.auth.USERS.clear()
@@ -294,6 +293,31 @@ class Front:
         self.m.server.USER_IMAP_SUBPROCESSES.clear()
         H.clock.now = NOW0
         self.snap0 = self.snapshot()
+
+    def write_pwfile(self):
+        with open(self.pwfile, "w") as f:
+            for name, (kind, secret) in self.accounts.items():
+                if kind == "unknown":
+                    continue
+                md = os.path.join(self.dir, "mail-" + name)
+                h = md5_hash(secret) if kind == "normal" else "!" + "x" * 40
+                f.write(f"{name}:{h}:{md}\n")
+        self.pw_mtime += 10
+        os.utime(self.pwfile, (self.pw_mtime, self.pw_mtime))
+
+    def setpw(self, user, what):
+        """The administrator changes / disables / re-enables / creates an account."""
+        kind, secret = self.accounts[user]
+        if what == "new":
+            self.old[user] = secret
+            self.accounts[user] = ["normal", secret + "-next"]
+        elif what == "disable":
+            self.accounts[user] = ["disabled", secret]
+        elif what == "enable":
+            self.accounts[user] = ["normal", secret]
+        elif what == "remove":
+            self.accounts[user] = ["unknown", secret]
+        self.write_pwfile()
 
     def close(self):
         shutil.rmtree(self.dir, ignore_errors=True)
@@ -362,8 +386,8 @@ class Front:
 
     # -- actions -------------------------------------------------------------------
     async def attempt(self, proto, user, addr, cred):
-        kind, secret = ACCOUNTS[user]
-        pw = {"good": secret, "wrong": WRONG, "empty": ""}[cred]
+        kind, secret = self.accounts[user]
+        pw = {"good": secret, "wrong": WRONG, "empty": "", "old": self.old.get(user, WRONG)}[cred]
         good = kind == "normal" and cred == "good"
         c = self.conn(proto, addr)
         n0 = len(H.contacts)
@@ -449,6 +473,8 @@ async def _run_plan(plan, seed):
                 await fr.attempt(st[1], st[2], st[3], st[4])
             elif st[0] == "cmd":
                 await fr.cmd(st[1], st[2], st[3])
+            elif st[0] == "setpw":
+                fr.setpw(st[1], st[2])
         fr.final()
         return fr.events
     finally:
@@ -542,6 +568,16 @@ def directed_plans():
                 p += [("attempt", proto, u, B, cred)]
             p += [("tick", 61)]
         out[f"no-account-{proto}"] = p
+        # "the account's current password": change, disable, re-enable, remove
+        out[f"password-changes-{proto}"] = [
+            ("attempt", proto, "alice", C, "good"), ("setpw", "alice", "new"),
+            ("attempt", proto, "alice", C, "old"), ("attempt", other, "alice", C, "good"),
+            ("setpw", "bob", "disable"), ("attempt", proto, "bob", C, "good"),
+            ("attempt", other, "bob", C, "empty"), ("setpw", "bob", "enable"),
+            ("attempt", proto, "bob", C, "good"), ("setpw", "bob", "remove"),
+            ("attempt", proto, "bob", C, "good"), ("tick", 61),
+            ("setpw", "alice", "new"), ("attempt", proto, "alice", B, "old"),
+            ("attempt", proto, "alice", B, "good")]
         # every other command before login, before and after a failed and a refused attempt
         p = [("cmd", proto, A, i) for i in range(1, NCMDS + 1)]
         p += [("attempt", proto, "alice", A, "wrong")] * 6
